@@ -11,7 +11,11 @@ SOURCES = ['src/opus_encoder.c', 'src/repacketizer.c', 'src/opus.c', 'src/opus_p
 RULE = ('wrapped real encoder (harness #includes src/opus_encoder.c and records every inner call): random ctl/encode '
         'histories (Fs x channels x application x 9 durations x int16/int24/float x 8 signal kinds incl. NaN/Inf/huge) with '
         'out_data_bytes from boundary sets and 1..4000 and bit-rates from boundary sets, log-uniform 500..512000, AUTO and MAX; '
-        'a sweep of out_data_bytes x bit-rate x duration x VBR/CVBR/CBR cells; multistream/projection sessions; the skeleton '
+        'a sweep of out_data_bytes x bit-rate x duration x VBR/CVBR/CBR cells; long frames x high rates x consecutive '
+        'out_data_bytes; multi-frame VBR packets with sub-frames >= 253 bytes and max_data_bytes swept +-8 around the size of a '
+        'probe packet (nearly full budget); multistream/projection sessions and, for 7 layouts, max_data_bytes 1..600 '
+        'exhaustively at high rates; constrained-VBR runs of 8 s after setting histories (speech phase / forced hybrid or SILK '
+        'frames / random ctl) incl. a fixed share of hybrid-history -> CELT-only music runs; the skeleton '
         'replays each recorded call from pre-state + oracles and must reproduce return value, packet structure, post-state and '
         'every inner call with its arguments. A case is distinct by (op, outcome kind).')
 NOT_COVERED = ['convergence of the constrained-VBR control loop (signal dependent): only searched with a calibrated tolerance '
@@ -61,6 +65,7 @@ def ties(ctx):
     out = []
     out.append(common.run_tie('encskel-rand', [hs, 'rand', str(s), '1200' if q else '12000']))
     out.append(common.run_tie('encskel-sweep', [hs, 'sweep', str(s), '0' if q else '1']))
+    out.append(common.run_tie('encskel-fill', [hs, 'fill', str(s), '0' if q else '1']))
     if not q:
         out.append(common.run_tie('encskel-bound', [hs, 'bound', str(s), '1']))
     out.append(common.run_tie('encskel-ms', [hs, 'ms', str(s), '120' if q else '1500']))
@@ -220,7 +225,9 @@ def _runs(ctx):
     return [('encsize-search-rand', [hp, 'rand', str(s + 1000), '2500' if q else '30000']),
             ('encsize-search-sweep', [hp, 'sweep', str(s + 1000), '0' if q else '1']),
             ('encsize-search-bound', [hp, 'bound', str(s + 1000), '0' if q else '1']),
+            ('encsize-search-fill', [hp, 'fill', str(s + 1000), '0' if q else '1']),
             ('encsize-search-ms', [hp, 'ms', str(s + 1000), '300' if q else '4000']),
+            ('encsize-search-mssweep', [hp, 'mssweep', str(s + 1000), '0' if q else '1']),
             ('encsize-search-cvbr', [hp, 'cvbr', str(s), '40' if q else '400', str(CAL['seconds'])])]
 
 
